@@ -14,7 +14,8 @@ RULE = ("Every public entry point is called with caller-owned arrays in drawn la
         "vector-valued beta, in calls that succeed and calls made to fail (other front end's input kind, a fault injected into "
         "the k-th optimiser call, min_cluster_size so large that no donor exists, a non-numeric lambda); (2) the optimiser entry "
         "point with covariance and lambda matrices; (3) the labelling kernel (JIT and interpreted) with cost table and beta "
-        "vector; (4) the labelling phase with data and a model carrying a beta vector. Oracle: for every argument bytes "
+        "vector; (4) the labelling phase with data and a caller-built model carrying a beta vector, a covariance floor (0 or > 0) "
+        "and precision matrices/means that are snapshotted like any other argument. Oracle: for every argument bytes "
         "(including the whole underlying buffer of a view), dtype, shape, strides and flags are identical before and after, "
         "lists keep length and element identity, and the read-only call returns bitwise the same result as the writable one. "
         "Non-trivial = at least one array argument is read-only, non-C-contiguous, or the call failed; distinct by SHA-1 of the case.")
@@ -76,7 +77,11 @@ def front_case(draw):
     cfg["param_readonly"] = draw(st.booleans())
     cfg["fault_at"] = draw(st.integers(0, 5))
     if cfg["front"] == "joint":
-        cfg["beta_form"] = "scalar"
+        # the joint front end documents a per-point array for the switching cost as well
+        cfg["beta_form"] = draw(st.sampled_from(["scalar", "vector", "vector"]))
+        if cfg["beta_form"] == "vector":
+            cfg["beta_vector_seed"] = draw(st.integers(0, 2 ** 16))
+            cfg["beta"] = max(cfg["beta"], 1.0)
     if cfg["outcome"] == "no_donor":
         cfg["m"] = 10 ** 6
         cfg["K"] = max(3, cfg["K"])
@@ -235,7 +240,8 @@ def kernel_case(draw):
     return {"T": draw(st.integers(1, 30)), "K": draw(st.integers(1, 5)), "seed": draw(st.integers(0, 2 ** 32 - 1)),
             "c_layout": draw(st.sampled_from(["C", "F", "strided"])), "c_readonly": draw(st.booleans()),
             "beta_vector": draw(st.booleans()), "b_layout": draw(st.sampled_from(["C", "strided"])), "b_readonly": draw(st.booleans()),
-            "via": draw(st.sampled_from(["kernel", "phase"]))}
+            "via": draw(st.sampled_from(["kernel", "phase"])), "floor": draw(st.sampled_from([0, 0, 0.3, 2.0])),
+            "m_layout": draw(st.sampled_from(["C", "F"]))}
 
 
 def execute_kernel(case, t):
@@ -265,14 +271,18 @@ def execute_kernel(case, t):
         data = layout(rng.normal(size=(T, n)) if False else np.random.default_rng(case["seed"] + 1).normal(size=(T, n)), case["c_layout"], c_ro)
         snaps.append(ArgSnap("data", data))
         args = arguments.UserArguments(sparsity_weight=0.1, iteration_limit=1, label_switching_cost=beta, min_cluster_size=2,
-                                       min_meaningful_covariance=0, num_clusters=K, num_processors=1, window_size=1, biased_covariance=False)
+                                       min_meaningful_covariance=case.get("floor", 0), num_clusters=K, num_processors=1,
+                                       window_size=1, biased_covariance=False)
         ms = model_state.ModelState.empty_model(args, data)
         ms.point_labels = [i % K for i in range(T)]
         r2 = np.random.default_rng(case["seed"] + 2)
         for k in range(K):
-            B = r2.normal(size=(n, n))
-            ms.clusters[k].train_inverse = B @ B.T + np.eye(n)
+            B = r2.normal(size=(n, n)) * 0.4
+            # the caller's model: matrices with entries on both sides of any floor, in the caller's layout
+            ms.clusters[k].train_inverse = layout(B @ B.T + np.eye(n), case.get("m_layout", "C"), False)
             ms.clusters[k].stacked_data_mean = r2.normal(size=n)
+            snaps.append(ArgSnap(f"model cluster {k} MRF", ms.clusters[k].train_inverse))
+            snaps.append(ArgSnap(f"model cluster {k} mean", ms.clusters[k].stacked_data_mean))
         try:
             out = cla.predict_cluster_labels(ms, data)
             return ([int(x) for x in out.point_labels], float(out.label_assignment_cost)), None, snaps
